@@ -19,7 +19,7 @@ import (
 func allConcrete(args ...value) bool {
 	for _, a := range args {
 		switch a.(type) {
-		case sstr, numstr, *sym:
+		case sstr, numstr, decstr, *sym:
 			return false
 		case []value:
 			for _, e := range a.([]value) {
